@@ -112,6 +112,38 @@ CLAIMED["C08"] = (
     "iteration are treated as unspecified.",
     "DESIGN.md §5 C08")
 
+CLAIMED["C09"] = (
+    "model_checking",
+    "TLA+ unit model of IEC 62386-102 9.10 memory access (MemUnit: DTR auto-increment, writeEnableState, last "
+    "accessible location, holes, lock byte, latch snapshot) + layout/interpretation (MemMap); traces of the real "
+    "read / read_all sequences re-executed frame by frame and judged by TLC (MemSeqJudge)",
+    "Every declared value x memory images x last-accessible-location x hole positions x silent/garbled answers x "
+    "gear/device; whole-bank reads with latch on/off while the environment changes measurement locations; the "
+    "clauses (bytes, exceptions, snapshot consistency, memory untouched, not left latched) are evaluated by TLC on "
+    "the model state it reconstructed itself.",
+    "Trusted: TLC; my reading of 9.10 (READ MEMORY LOCATION resets writeEnableState; reads beyond the last location "
+    "still increment DTR0). The Python unit simulator is re-executed by TLC (mismatch = exit 2).",
+    "DESIGN.md §5 C09")
+CLAIMED["C10"] = (
+    "model_checking",
+    "same MemUnit model (write side: lock byte 0x55, echo, DTR0 post-check, NO answers); traces of the real "
+    "write_raw / write against units with every variant and fault, judged by TLC (MemSeqJudge)",
+    "All declared values (writable and not) x data incl. MASK/TMASK literals and short strings x lock byte "
+    "locked/unlocked/odd x gear/device x {non-standard unlock value, DTR0 not advancing, wrong echo, shorter bank, "
+    "hole} x silent/garbled answer at each step; TLC compares the model's final memory with the request.",
+    "Trusted: TLC; documented exception set; the unit simulator is re-executed by TLC.",
+    "DESIGN.md §5 C10")
+CLAIMED["C11"] = (
+    "model_checking",
+    "memory layout and interpretation rules as a TLA+ table (MemMap) with well-formedness theorems checked by TLC; "
+    "the library's declared map compared both ways; every raw string of 1-/2-byte values and boundary/random "
+    "strings of wider values interpreted by the real classes and judged by TLC (MemJudge)",
+    "Exhaustive for the 60+ one- and two-byte values (all 2^8 / 2^16 raw strings), boundary + scale-byte + random "
+    "strings for 3..60-byte values, inverse conversions for all numbers of <= 2 bytes and strings of every length.",
+    "Trusted: TLC; my transcription of IEC 62386-102 Table 9 / DiiA 251-253 (MASK/TMASK/limit columns of banks "
+    "205-207 are pins, src=doc).",
+    "DESIGN.md §5 C11")
+
 NOT_YET = {}
 
 
